@@ -10,6 +10,8 @@ use serde_json::{json, Value};
 
 mod corecmd;
 mod lexcmd;
+mod project;
+mod session;
 mod transpile;
 mod typescmd;
 mod util;
@@ -89,6 +91,8 @@ fn main() {
         "types-ctx" => write_records(&par_map(read_records(), typescmd::ctx_record)),
         "types-table" => write_records(&par_map(read_records(), typescmd::table_record)),
         "transpile" => write_records(&par_map(read_records(), transpile::transpile_record)),
+        "project" => write_records(&par_map(read_records(), project::project_record)),
+        "session" => write_records(&par_map(read_records(), session::session_record)),
         "version" => println!("{}", json!({"harness": 1})),
         _ => {
             eprintln!("usage: vh <lex|...>  (ndjson on stdin)");
